@@ -345,16 +345,21 @@ class CallGraph:
                                     elif rr[0] == "?":
                                         wg.add("*")
                     elif r[0] == "asm":
-                        # inline asm with memory operands: constraints decide; be conservative on
-                        # pointer args only when the constraint string has a memory clobber / =*m
-                        cons = ins["callee"][2]
-                        if "=*m" in cons or "+*m" in cons or "~{memory}" in cons:
-                            for i, ar in enumerate(argroots):
-                                for rr in ar:
+                        # inline asm: the AT&T text says which pointer operands are stored through
+                        from . import asmfx
+                        fx = asmfx.parse(ins["callee"][1], ins["callee"][2])
+                        which = fx["writes"]
+                        if fx["opaque"] and fx["memclobber"]:
+                            which = range(len(argroots))
+                        for i in which:
+                            if i < len(argroots):
+                                for rr in argroots[i]:
                                     if rr[0] == "a":
                                         wp.add(rr[1])
                                     elif rr[0] == "g":
                                         wg.add(rr[1])
+                                    elif rr[0] == "?":
+                                        wg.add("*")
                     elif r[0] == "unknown":
                         for ar in argroots:
                             for rr in ar:
@@ -533,6 +538,20 @@ class ReadRanges:
                                     rr.setdefault(pi, []).append(ALL)
                                 else:
                                     rr.setdefault(pi, []).append((off + rng[0], off + rng[1]))
+                    elif r[0] == "asm":
+                        from . import asmfx
+                        fx = asmfx.parse(ins["callee"][1], ins["callee"][2])
+                        for i, p in enumerate(ptrs):
+                            if p is None:
+                                continue
+                            if fx["opaque"]:
+                                rr.setdefault(p[0], []).append(ALL)
+                                continue
+                            for rng in fx["reads"].get(i, []):
+                                if rng is None or p[1] is None:
+                                    rr.setdefault(p[0], []).append(ALL)
+                                else:
+                                    rr.setdefault(p[0], []).append((p[1] + rng[0], p[1] + rng[1]))
                     else:
                         for p in ptrs:
                             if p is not None:
